@@ -6,16 +6,17 @@ from ..flow import (resolver, peel, root_local, guards_of, call_guarded, rel_fac
                     edge_facts, E)
 from ..facts import AnchorMissing, op_const_int
 
-LEVEL = ("decides the structural discipline of the branching module: every variable selector tests "
-         "fixedness before proposing (N1); the VSIDS search returns a predicate only on the "
-         "unassigned edge (N2); every wrapper forwards every event hook its wrapped trait offers, "
-         "computed from the trait declarations (N3); an event hook with an effect is declared in "
-         "subscribe_to_events and wrappers chain their children's declarations; the dynamic "
-         "brancher dispatches each hook through its own tag (N4); the autonomous search falls back "
-         "while variables are unassigned and the dynamic brancher gives up only after every child "
-         "(N5); tie-breakers reset on select (N6); the sparse-set protocol used by the random "
-         "selector is honoured by the container (N7); every value selector's predicate has one of "
-         "the confirmed undecided shapes (N8). Does not decide undecidedness for every domain shape")
+LEVEL = ('decides the structural discipline of the branching module: every variable selector tests '
+         'fixedness before proposing (N1); the VSIDS search returns a predicate only on the unassigned'
+         ' edge (N2); every wrapper forwards every event hook its wrapped trait offers, computed from '
+         'the trait declarations (N3); an event hook with an effect is declared in subscribe_to_events'
+         " and wrappers chain their children's declarations; the dynamic brancher dispatches each hook"
+         ' through its own tag (N4); the autonomous search falls back while variables are unassigned '
+         'and the dynamic brancher gives up only after every child (N5); tie-breakers reset on select '
+         '(N6); the sparse-set protocol used by the random selector is honoured by the container (N7);'
+         " every value selector's predicate has one of the confirmed undecided shapes (N8). "
+         'Assignments::evaluate_predicate, by which decidedness is judged, is exact on every domain '
+         'shape of a 5-value universe (N10). Does not decide undecidedness for every domain shape')
 TECHNIQUE = "static analysis: FORWARD-ALL / OVERRIDE⇒DECLARE sibling rules, dominance and shape tables over rustc MIR"
 
 TRAITS = {"Brancher": "branching::brancher::Brancher",
